@@ -216,6 +216,10 @@ func localCalls(w *World, ri int, alpha string) []pt.Action {
 		if strings.Contains(alpha, "nest") {
 			shapes = []string{"na", "p"}
 		}
+		if strings.Contains(alpha, "key1") {
+			// one top-level key only (put a primitive / an object, delete): deep three-party conflicts on it
+			shapes, objs, arrs = []string{"p", "o"}, []string{""}, nil
+		}
 		for _, t := range objs {
 			keys := []string{"a"}
 			if rich {
